@@ -68,6 +68,7 @@ PROP_FLAVOURS = {
     "C15": {"quick": ["asm"], "thorough": ["asm", "plain"]},
     "C16": {"quick": ["asm"], "thorough": ["asm", "plain"]},
     "C17": {"quick": ["asm"], "thorough": ["asm", "plain"]},
+    "C18": {"quick": ["asm"], "thorough": ["asm", "intr", "plain"]},
 }
 
 ALL_PROPS = ["C%02d" % i for i in range(1, 19)]
